@@ -39,11 +39,11 @@ FLOORS = {
     "T3g": 40, "T3a-req": 40, "T4a": 50, "T4b": 5, "T4c": 50, "T4d": 50, "T4e": 3, "T4f": 8,
     "T4g": 10, "T5": 8, "T3h": 50,
     # effect / ownership rules (write sites confirmed by reading conducting.py / machines.py)
-    "F1": 10, "F2": 10, "F3": 10, "F4": 8, "F5": 25, "F6": 3, "F7": 2, "F9": 200, "F10": 2, "F8": 8, "O1": 30,
+    "F1": 10, "F2": 10, "F3": 10, "F4": 8, "F5": 25, "F6": 3, "F7": 2, "F9": 200, "F10": 2, "F11": 1, "F8": 8, "O1": 30,
     "O2": 6, "O3": 20, "S1": 20,
     "X1": 5, "X2": 40, "X3": 6,
-    "P1": 3, "P2": 5, "P3": 5, "P4": 2, "P5": 3, "P6": 9, "P7": 5, "P8": 2, "P9": 1, "P10": 1,
-    "E7": 30, "U1": 5, "S2": 12, "S3": 15, "G1": 6, "G2": 5, "G3": 8, "S1b": 6, "M1": 2,
+    "P1": 3, "P2": 5, "P3": 5, "P4": 2, "P5": 3, "P6": 9, "P7": 5, "P8": 2, "P9": 1, "P10": 1, "P11": 1,
+    "E7": 30, "U1": 5, "S2": 12, "S3": 15, "G1": 6, "G2": 5, "G3": 8, "G4": 5, "S1b": 6, "M1": 2,
     "N1": 25, "N2": 8, "O4": 3, "O5": 4, "O6": 2, "O7": 4, "V1": 10, "V2": 1, "S4": 1, "S5": 3, "S6": 10, "S7": 4, "S1c": 12,
 }
 
@@ -85,7 +85,8 @@ prop(
     "C03",
     anchor_modules=TABLE_MODS,
     rules=[_t(T.rule_T0), _t(T.rule_T1), _t(T.rule_T3b), _t(T.rule_T3c), _t(T.rule_T3f),
-           _t(T.rule_T3g), _t(T.rule_T4g), _t(T.rule_T4d), P.rule_P1, P.rule_P2, G.rule_G1],
+           _t(T.rule_T3g), _t(T.rule_T4g), _t(T.rule_T4d), P.rule_P1, P.rule_P2, P.rule_P11,
+           G.rule_G1],
     controls=[K.ctl_wf_drop_dormant_cell],
     exhaustive=True,
     explanation=(
@@ -107,8 +108,8 @@ prop(
            _t(T.rule_T3c, rows=("pausing", "paused")), _t(T.rule_T3d, rows=("pausing", "paused")),
            _t(T.rule_T3g, rows=("running", "pausing", "paused", "resuming")),
            _t(T.rule_T3h, rows=("pausing",)), _t(T.rule_T3e),
-           _t(T.rule_T3f), _t(T.rule_T4f), _t(T.rule_T4a), P.rule_P2, E.rule_F7],
-    controls=[K.ctl_wf_drop_failed_cell],
+           _t(T.rule_T3f), _t(T.rule_T4f), _t(T.rule_T4a), P.rule_P2, P.rule_P10, E.rule_F7],
+    controls=[K.ctl_wf_drop_failed_cell, K.ctl_term_only_if_task_completed],
     exhaustive=True,
     explanation=(
         "Decides the structural clauses of pause/resume: pausing and paused are not offering "
@@ -116,7 +117,10 @@ prop(
         "workflow and every event with something in flight keeps it pausing; a failure or fail "
         "command that lands after the pause took effect is not lost (row paused); resume "
         "completes a workflow only when nothing is in flight, staged or paused; a running "
-        "with-items task receives the pause. NOT decided: the twin-run relation (same final "
+        "with-items task receives the pause; a completion - by a task event or by the resume "
+        "request itself - leaves a terminal record behind so that the output is rendered as in "
+        "the run without a pause (P10; the request path is known finding D20). NOT decided: the "
+        "twin-run relation (same final "
         "status, tasks, errors, output as the unpaused history) at every insertion point."),
     assumptions=[A1, A_SPEC, A_AST],
 )
@@ -392,10 +396,12 @@ prop(
 prop(
     "C17",
     anchor_modules=ENGINE_MODS,
-    rules=[_f6_rerun, _e7_rerun, E.rule_F4, G.rule_G1, G.rule_G2, G.rule_G3,
+    rules=[_f6_rerun, _e7_rerun, E.rule_F4, E.rule_F11, P.rule_P11, G.rule_G1, G.rule_G2, G.rule_G3,
+           G.rule_G4,
            _t(T.rule_T3d, rows=("resuming",)), _t(T.rule_T3b, rows=("resuming",))],
     controls=[K.ctl_rerun_write_before_reject, K.ctl_unguarded_staged_deref,
-              K.ctl_predicate_over_raw_sequence, K.ctl_mixed_identity],
+              K.ctl_predicate_over_raw_sequence, K.ctl_mixed_identity,
+              K.ctl_append_before_membership_test],
     explanation=(
         "Decides the structural clauses of rerun: the two rejections of request_workflow_rerun "
         "(workflow not completed; unknown task execution) precede every persistent write on "
@@ -405,7 +411,11 @@ prop(
         "(F4); the status predicates the workflow machine consults after a rerun look at the "
         "latest record of each task only, so superseded (failed / canceled) records do not "
         "count (G2); the descendant search that resets term flags and collapses rerun requests "
-        "reads every (id, route) pair from one record (G3). NOT decided: 're-executes exactly "
+        "reads every (id, route) pair from one record (G3) and tests 'already visited' before it "
+        "records a descendant, so it does not stop at the direct children (G4); the status is "
+        "forced to resuming only when the request selected something to rerun or continue (F11, "
+        "known finding D22). NOT decided: "
+        "'re-executes exactly "
         "the requested tasks', convergence to the clean "
         "outcome, 'never stuck after an accepted rerun' (twin runs over histories)."),
     assumptions=[A_ABS, A_AST],
